@@ -6,6 +6,8 @@ import (
 	"context"
 	"errors"
 	"fmt"
+	"io"
+	"os"
 	"reflect"
 	"strconv"
 	"strings"
@@ -127,7 +129,22 @@ func (r *Run) onClose(o *Obj) error {
 		r.inClose[key]--
 	}
 	if fail {
-		return fmt.Errorf("scripted close error of %d/%d/%d", o.Rid, o.Inv, o.Out)
+		// what the error is, is the instance's business (invisible to the model): an opaque error, or one that wraps
+		// an error value the container itself knows about
+		var cause error
+		switch (o.Rid + o.Inv + o.Out) % 5 {
+		case 1:
+			cause = context.Canceled
+		case 2:
+			cause = context.DeadlineExceeded
+		case 3:
+			cause = io.EOF
+		case 4:
+			cause = os.ErrClosed
+		default:
+			return fmt.Errorf("scripted close error of %d/%d/%d", o.Rid, o.Inv, o.Out)
+		}
+		return fmt.Errorf("scripted close error of %d/%d/%d: %w", o.Rid, o.Inv, o.Out, cause)
 	}
 	return nil
 }
@@ -278,6 +295,24 @@ func (r *Run) instOf(v reflect.Value) (Inst, bool) {
 	return Inst{Void: o.Void, Rid: o.Rid, Inv: o.Inv, Out: o.Out, Dyn: o.Dyn}, true
 }
 
+// memberOf decodes one element of a group slice: an element its constructor left nil is the model's NIL_MEMBER.
+func (r *Run) memberOf(v reflect.Value) Inst {
+	if !v.IsValid() {
+		return Inst{Dyn: tNilOut}
+	}
+	switch v.Kind() {
+	case reflect.Pointer, reflect.Interface:
+		if v.IsNil() {
+			return Inst{Dyn: tNilOut}
+		}
+	}
+	in, ok := r.instOf(v)
+	if !ok {
+		return Inst{Rid: 7002}
+	}
+	return in
+}
+
 func base36(n int) string { return strconv.FormatUint(uint64(n), 36) }
 
 func (r *Run) scopeHandle(s godi.Scope) int {
@@ -298,11 +333,7 @@ func (r *Run) decode(v reflect.Value, ty int, group bool) AVal {
 		}
 		l := make([]Inst, 0, v.Len())
 		for i := 0; i < v.Len(); i++ {
-			in, ok := r.instOf(v.Index(i))
-			if !ok {
-				in = Inst{Rid: 7002}
-			}
-			l = append(l, in)
+			l = append(l, r.memberOf(v.Index(i)))
 		}
 		return AVal{Kind: "list", List: l}
 	}
@@ -685,6 +716,10 @@ func (r *Run) classify(err error) Result {
 		return res
 	}
 	switch {
+	case isA[godi.DisposalError](err):
+		// first: what the failing Close methods returned may itself wrap any error value
+		de, _ := asVal[godi.DisposalError](err)
+		res.Class, res.CArg = "EDisposal", len(de.Errors)
 	case errors.Is(err, context.Canceled) || errors.Is(err, context.DeadlineExceeded):
 		res.Class = "ECancelled"
 	case errors.Is(err, godi.ErrServiceNotFound):
@@ -701,9 +736,6 @@ func (r *Run) classify(err error) Result {
 		res.Class = "EAlready"
 	case isA[godi.TypeMismatchError](err):
 		res.Class = "ETypeMismatch"
-	case isA[godi.DisposalError](err):
-		de, _ := asVal[godi.DisposalError](err)
-		res.Class, res.CArg = "EDisposal", len(de.Errors)
 	case errors.Is(err, godi.ErrSingletonNotInitialized):
 		res.Class = "ESingletonNotInit"
 	case errors.Is(err, godi.ErrServiceKeyNil):
@@ -739,14 +771,17 @@ func (r *Run) prov(i int) *provRec {
 	return r.provs[i]
 }
 
-func (r *Run) explicitCtx(c int) context.Context {
+func (r *Run) explicitCtx(c int, base context.Context) context.Context {
 	if c == 0 {
 		return nil
 	}
 	if rec, ok := r.ctxs[c]; ok {
 		return rec.ctx
 	}
-	ctx, cancel := context.WithCancel(context.WithValue(context.Background(), cidKey{}, c))
+	if base == nil {
+		base = context.Background()
+	}
+	ctx, cancel := context.WithCancel(context.WithValue(base, cidKey{}, c))
 	r.ctxs[c] = &ctxRec{ctx, cancel}
 	return ctx
 }
@@ -960,7 +995,11 @@ func (r *Run) exec(op *Op) (res Result) {
 		r.curH = h
 		id := "s" + base36(pr.newScopes+1)
 		pr.idToHandle[id] = h
-		ctx := r.explicitCtx(op.Ctx)
+		var base context.Context
+		if op.Derive && op.Parent != 0 {
+			base = pr.scopes[op.Parent].Context()
+		}
+		ctx := r.explicitCtx(op.Ctx, base)
 		var sc godi.Scope
 		var err error
 		// the provider numbers a scope before it knows whether creation succeeds, but only when it gets that far
@@ -1020,11 +1059,7 @@ func (r *Run) exec(op *Op) (res Result) {
 		}
 		l := make([]Inst, 0, len(vs))
 		for _, v := range vs {
-			in, ok := r.instOf(reflect.ValueOf(v))
-			if !ok {
-				in = Inst{Rid: 7002}
-			}
-			l = append(l, in)
+			l = append(l, r.memberOf(reflect.ValueOf(v)))
 		}
 		return Result{Kind: "val", Val: &AVal{Kind: "list", List: l}}
 	case "close":
